@@ -130,6 +130,10 @@ def literal_text_table(module, dict_name):
     for node in tree.body:
         if isinstance(node, ast.Assign) and any(isinstance(t, ast.Name) and t.id == dict_name for t in node.targets):
             d = node.value
+            if isinstance(d, ast.Call) and d.args and isinstance(d.args[0], ast.Dict):
+                d = d.args[0]  # a dict literal handed to a wrapper class
+            if not isinstance(d, ast.Dict):
+                raise KeyError(f"{dict_name} is not a dict literal")
             out = {}
             for k, v in zip(d.keys, d.values):
                 out[ast.literal_eval(k)] = ast.get_source_segment(src, v)
